@@ -22,6 +22,7 @@ func (p *Program) LoadConsts() error {
 		big      bool
 	}
 	byPkg := map[string][]gv{}
+	ifaceVars := map[string]bool{}
 	var pkgPaths []string
 	wantPkg := map[string]bool{}
 	for _, f := range p.CS.Files {
@@ -56,6 +57,9 @@ func (p *Program) LoadConsts() error {
 				byPkg[pp] = append(byPkg[pp], gv{pp, n, true})
 			} else if _, _, isInt := intInfo(v.Type()); isInt {
 				byPkg[pp] = append(byPkg[pp], gv{pp, n, false})
+			} else if _, isIface := v.Type().Underlying().(*types.Interface); isIface {
+				byPkg[pp] = append(byPkg[pp], gv{pp, n, false})
+				ifaceVars[pp+"."+n] = true
 			} else if st, ok := v.Type().Underlying().(*types.Struct); ok && st.NumFields() > 0 && st.NumFields() <= 4 {
 				// small structs of integers (MemoryUsage, ComputationUsage): one entry per field
 				allInt := true
@@ -97,6 +101,8 @@ func (p *Program) LoadConsts() error {
 		for _, g := range byPkg[pp] {
 			if g.big {
 				fmt.Fprintf(&src, "\temit(%q, b(%s))\n", pp+"."+g.name, g.name)
+			} else if ifaceVars[pp+"."+g.name] {
+				fmt.Fprintf(&src, "\tif %s == nil { emit(%q, \"nil\") } else { emit(%q, verifFmt.Sprintf(\"nonnil:%%T\", %s)) }\n", g.name, pp+"."+g.name, pp+"."+g.name, g.name)
 			} else {
 				fmt.Fprintf(&src, "\temit(%q, verifFmt.Sprint(%s))\n", pp+"."+g.name, g.name)
 			}
